@@ -370,7 +370,7 @@ func (e *Engine) verifyUnit(ct *Contract) (u *Unit) {
 		u.Opaque = c.opaque
 		u.TermUnproved = c.termUnproved
 		u.Inputs = c.inputs
-		u.Splits = c.splits
+		u.Splits = append(append([]*Term{}, c.splits...), c.ifSplits...)
 	}()
 	var args []Val
 	for _, p := range gen.Params {
